@@ -14,6 +14,14 @@ structure CodecOK (c : FileCfg) : Prop where
   deM_serM : ∀ m, c.deM (c.serM m) = some m
   deD_serD : ∀ t v, c.deD t (c.serD t v) = some v
 
+/-- the same, only for the two payloads of one state (what the crash theorems need) -/
+structure CodecAt (c : FileCfg) (st : CState) : Prop where
+  metaOK : (c.dec (c.enc (c.serM { st.metadata with status := ready }))).bind c.deM = some { st.metadata with status := ready }
+  dataOK : (c.dec (c.enc (c.serD st.metadata.typeId st.data))).bind (c.deD st.metadata.typeId) = some st.data
+
+theorem CodecOK.at {c : FileCfg} (ok : CodecOK c) (st : CState) : CodecAt c st :=
+  ⟨by simp [ok.dec_enc, ok.deM_serM], by simp [ok.dec_enc, ok.deD_serD]⟩
+
 /-! ### reads depend only on the files of the key -/
 
 theorem readC_congr (c : FileCfg) (d1 d2 : CDir) (k : Str)
@@ -242,6 +250,84 @@ theorem storeMeta_crash (c : FileCfg) (d : CDir) (m : CMeta) (n cut : Nat) :
       apply readC_congr
       · apply get_execC_untouched; simp [Step.names, tmpC]
       · intro e; apply get_execC_untouched; simp [Step.names, tmpC]
+
+/-! ### `store` -/
+
+/-- all steps of `store` but the last one (the `os.replace` that publishes the metadata file) -/
+def storePreC (c : FileCfg) (d : CDir) (st : CState) : List (Step FName) :=
+  let m := { st.metadata with status := ready }
+  removeStepsC c d m.query ++ writeFileC (.data (c.h m.query) (c.ext m.typeId)) (c.enc (c.serD m.typeId st.data)) ++
+    [.create tmpC, .append tmpC (c.enc (c.serM m)), .close tmpC]
+
+theorem storeStepsC_split (c : FileCfg) (d : CDir) (st : CState) :
+    storeStepsC c d st = storePreC c d st ++ [.rename tmpC (.state (c.h st.metadata.query))] := by
+  simp [storeStepsC, storePreC, storeMetaStepsC, writeFileC, List.append_assoc]
+
+theorem storePreC_safe (c : FileCfg) (d : CDir) (st : CState) : ∀ s ∈ storePreC c d st, stateSafe (c.h st.metadata.query) s = true := by
+  intro s hs
+  simp only [storePreC, List.mem_append] at hs
+  rcases hs with (hs | hs) | hs
+  · exact removeStepsC_safe c d _ _ s hs
+  · exact writeFileC_safe _ _ _ (by simp) s hs
+  · simp only [List.mem_cons, List.not_mem_nil, or_false] at hs
+    rcases hs with rfl | rfl | rfl <;> simp [stateSafe, tmpC]
+
+theorem store_final (c : FileCfg) (d : CDir) (st : CState) (ok : CodecAt c st) :
+    readC c ((storeStepsC c d st).foldl execC d) st.metadata.query =
+      (some { metadata := { st.metadata with status := ready }, data := st.data }, some { st.metadata with status := ready }) := by
+  have hs : AL.get ((storeStepsC c d st).foldl execC d) (.state (c.h st.metadata.query)) =
+      some (c.enc (c.serM { st.metadata with status := ready })) := by
+    simp only [storeStepsC, storeMetaStepsC, List.foldl_append]
+    rw [get_writeFileC_final _ _ _ _ (by simp [tmpC]) (by simp [tmpC])]
+    simp
+  have hd : AL.get ((storeStepsC c d st).foldl execC d) (.data (c.h st.metadata.query) (c.ext st.metadata.typeId)) =
+      some (c.enc (c.serD st.metadata.typeId st.data)) := by
+    simp only [storeStepsC, storeMetaStepsC, List.foldl_append]
+    rw [get_writeFileC_final _ _ _ _ (by simp [tmpC]) (by simp [tmpC])]
+    rw [get_writeFileC_final _ _ _ _ (by simp [tmpC]) (by simp [tmpC])]
+    simp
+  have h1 := ok.metaOK
+  have h2 := ok.dataOK
+  simp only [readC, FileC.get, FileC.loadMeta, hs, hd, h1, h2]
+  simp [ready]
+
+/-- **`FileCache.store`**: every crash point (every step boundary, every prefix of every write, payloads of any
+length) reads as before, as a miss, or as the complete new entry -/
+theorem store_crash (c : FileCfg) (d : CDir) (st : CState) (ok : CodecAt c st) (n cut : Nat) :
+    readC c (crashAt execC n cut (storeStepsC c d st) d) st.metadata.query = readC c d st.metadata.query ∨
+    readC c (crashAt execC n cut (storeStepsC c d st) d) st.metadata.query = (none, none) ∨
+    readC c (crashAt execC n cut (storeStepsC c d st) d) st.metadata.query =
+      (some { metadata := { st.metadata with status := ready }, data := st.data }, some { st.metadata with status := ready }) := by
+  by_cases hn : (storeStepsC c d st).length ≤ n
+  · right; right
+    rw [crashAt_ge _ _ _ _ _ hn]
+    exact store_final c d st ok
+  · have hlen : n ≤ (storePreC c d st).length := by
+      rw [storeStepsC_split] at hn; simp at hn; omega
+    cases hs : AL.get d (.state (c.h st.metadata.query)) with
+    | none =>
+      right; left
+      apply readC_absent
+      rw [storeStepsC_split]
+      exact crashAt_before_last execC (fun d' => AL.get d' (.state (c.h st.metadata.query)) = none) _ _ rfl
+        (fun s hs' fs hI => absent_execC _ fs s (storePreC_safe c d st s hs') hI)
+        (fun p b _ cut fs hI => absent_execC _ fs _ rfl hI) n cut d hlen hs
+    | some x =>
+      have hpre : storePreC c d st = .unlink (.state (c.h st.metadata.query)) :: (storePreC c d st).tail := by
+        simp [storePreC, removeStepsC, hs]
+      cases n with
+      | zero =>
+        left
+        rw [storeStepsC_split, hpre, List.cons_append, crashAt_zero_cons _ _ _ _ _ rfl]
+      | succ n =>
+        right; left
+        apply readC_absent
+        rw [storeStepsC_split, hpre, List.cons_append, crashAt_succ_cons]
+        refine crashAt_before_last execC (fun d' => AL.get d' (.state (c.h st.metadata.query)) = none) _ _ rfl
+          (fun s hs' fs hI => absent_execC _ fs s (storePreC_safe c d st s (List.mem_of_mem_tail hs')) hI)
+          (fun p b _ cut fs hI => absent_execC _ fs _ rfl hI) n cut _ ?_ ?_
+        · rw [hpre] at hlen; simpa using hlen
+        · simp [execC, AL.get_erase]
 
 end Crash
 end Liquer
